@@ -1351,6 +1351,22 @@ func mutatorMethods(p *Program) map[string]map[string]*ssa.Function {
 		recv := fn.Params[0]
 		for _, b := range fn.Blocks {
 			for _, ins := range b.Instrs {
+				// the address of one of the receiver's fields handed to a
+				// function that stores through it is a store into the receiver
+				if cc := callOf(ins); cc != nil && cc.StaticCallee() != nil {
+					for i, arg := range cc.Args {
+						fa, ok := arg.(*ssa.FieldAddr)
+						if !ok || fa.X != ssa.Value(recv) || i >= len(cc.StaticCallee().Params) {
+							continue
+						}
+						if storesThrough(cc.StaticCallee(), cc.StaticCallee().Params[i]) {
+							if out[tn] == nil {
+								out[tn] = map[string]*ssa.Function{}
+							}
+							out[tn][fn.Name()] = fn
+						}
+					}
+				}
 				st, ok := ins.(*ssa.Store)
 				if !ok {
 					continue
@@ -2087,6 +2103,28 @@ func ruleStateCensus(p *Program, r *Reporter) {
 								}
 							}
 							return out, true
+						case *ssa.Extract:
+							// one of several results of a function of the same object
+							cl, isCall := m.Tuple.(*ssa.Call)
+							if !isCall {
+								return nil, false
+							}
+							cal := cl.Call.StaticCallee()
+							if cal == nil || fnPkg(cal) == nil || !IsLibPath(fnPkg(cal).Pkg.Path()) || cal.Signature.Recv() == nil || len(cl.Call.Args) == 0 || len(fn.Params) == 0 || cl.Call.Args[0] != ssa.Value(fn.Params[0]) {
+								return nil, false
+							}
+							for _, rb := range cal.Blocks {
+								if ret, ok := terminator(rb).(*ssa.Return); ok && m.Index < len(ret.Results) {
+									o, ok := originsOf(returnOperand(ret, m.Index), d+1)
+									if !ok {
+										return nil, false
+									}
+									for k := range o {
+										out[k] = true
+									}
+								}
+							}
+							return out, true
 						case *ssa.Call:
 							cal := m.Call.StaticCallee()
 							if cal == nil || fnPkg(cal) == nil || !IsLibPath(fnPkg(cal).Pkg.Path()) || cal.Signature.Results().Len() != 1 {
@@ -2247,4 +2285,17 @@ func withCallees(p *Program, fns []*ssa.Function) []*ssa.Function {
 		}
 	}
 	return out
+}
+
+// storesThrough: the function stores to the location its pointer parameter
+// points at.
+func storesThrough(g *ssa.Function, prm *ssa.Parameter) bool {
+	for _, b := range g.Blocks {
+		for _, ins := range b.Instrs {
+			if st, ok := ins.(*ssa.Store); ok && st.Addr == ssa.Value(prm) {
+				return true
+			}
+		}
+	}
+	return false
 }
